@@ -461,6 +461,10 @@ fn witnesses_text() -> Vec<(&'static str, Vec<u8>, &'static str)> {
         ("count_u64max", b"file:a.c\nlcount:1,18446744073709551615\n".to_vec(), "ok K612e63=L1:18446744073709551615;B;F"),
         ("negative", b"file:a.c\nlcount:1,-7\nlcount:2,-\n".to_vec(), "ok K612e63=L1:0,2:0;B;F"),
         ("blank_line", b"file:a.c\n\nlcount:1,1\n".to_vec(), "err InvalidRecord"),
+        // gcov 8 (routed to parse_gcov by lib.rs, outside the property's quantifier): Lean
+        // C09_text_gcov8_lcount_is_parse_error and the example next to it
+        ("gcov8_lcount_three_fields", b"file:a.c\nlcount:10,1,0\n".to_vec(), "err Parse"),
+        ("gcov8_function_four_fields", b"file:a.c\nfunction:10,12,0,foo\nlcount:10,1\n".to_vec(), "ok K612e63=L10:1;B;F302c666f6f:10:1"),
         (
             "crlf_and_no_final_newline",
             b"file:a.c\r\nfunction:3,0,a,b,c\r\nbranch:3,taken\r\nbranch:3,nottaken\r\nlcount:3,+07\r".to_vec(),
@@ -691,6 +695,47 @@ fn witnesses_json(rng: &mut Rng) -> Vec<(&'static str, Vec<u8>, Option<J>, Optio
         ("data_file".into(), J::Str("a.gcda".into())),
     ]), BAD, rng);
     add("float_2^64_saturates", doc(vec![line(J::Num(json::N::Flt { text: "1.8446744073709552e19".into(), neg: false, m: 1, e: 64 }))]), "ok K612e63=L7:18446744073709551615;B;F", rng);
+    // Lean C09_json_two_pow_64_is_accepted_and_saturated: the integer literal 2^64 is an f64 for serde_json
+    add("int_literal_2^64_saturates", doc(vec![line(J::Num(json::N::Flt { text: "18446744073709551616".into(), neg: false, m: 1, e: 64 }))]), "ok K612e63=L7:18446744073709551615;B;F", rng);
+    // Lean C09_json_fractional_counter_truncates
+    add("float_0.5_truncates_to_0", doc(vec![line(J::Num(json::N::Flt { text: "0.5".into(), neg: false, m: 1, e: -1 }))]), "ok K612e63=L7:0;B;F", rng);
+    // Lean C09_json_unknown_keys_irrelevant / exDoc13: gcov 13/14 keys at every level, keys out of gcov's order
+    add("gcov14_unknown_keys_every_level", J::Obj(vec![
+        ("x".into(), J::Null),
+        ("files".into(), J::Arr(vec![J::Obj(vec![
+            ("lines".into(), J::Arr(vec![J::Obj(vec![
+                ("branches".into(), J::Arr(vec![J::Obj(vec![
+                    ("throw".into(), J::Bool(false)),
+                    ("source_block_id".into(), J::Num(json::N::Pos(2))),
+                    ("count".into(), J::Num(json::N::Pos(0))),
+                    ("fallthrough".into(), J::Bool(true)),
+                ])])),
+                ("block_ids".into(), J::Arr(vec![J::Num(json::N::Pos(1))])),
+                ("count".into(), J::Num(json::N::Pos(7))),
+                ("conditions".into(), J::Arr(vec![])),
+                ("line_number".into(), J::Num(json::N::Pos(3))),
+                ("calls".into(), J::Arr(vec![J::Obj(vec![])])),
+                ("unexecuted_block".into(), J::Bool(false)),
+            ])])),
+            ("file".into(), J::Str("a.c".into())),
+            ("z".into(), J::Obj(vec![("file".into(), J::Str("b".into()))])),
+            ("functions".into(), J::Arr(vec![J::Obj(vec![
+                ("name".into(), J::Str("f".into())),
+                ("demangled_name".into(), J::Str("f".into())),
+                ("start_line".into(), J::Num(json::N::Pos(3))),
+                ("start_column".into(), J::Num(json::N::Pos(1))),
+                ("end_line".into(), J::Num(json::N::Pos(9))),
+                ("end_column".into(), J::Num(json::N::Pos(1))),
+                ("blocks".into(), J::Num(json::N::Pos(4))),
+                ("blocks_x".into(), J::Num(json::N::Neg(1))),
+                ("blocks_executed".into(), J::Num(json::N::Pos(2))),
+                ("execution_count".into(), J::Num(json::N::Pos(5))),
+            ])])),
+        ])])),
+        ("format_version".into(), J::Str("2".into())),
+        ("gcc_version".into(), J::Str("14".into())),
+        ("data_file".into(), J::Str("d".into())),
+    ]), "ok K612e63=L3:7;B3:0;F66:3:1", rng);
     add("float_above_2^64", doc(vec![line(J::Num(json::N::Flt { text: "1.8446744073709556e19".into(), neg: false, m: (1 << 52) + 1, e: 12 }))]), BAD, rng);
     add("float_minus_zero", doc(vec![line(J::Num(json::N::Flt { text: "-0.0".into(), neg: true, m: 0, e: 0 }))]), "ok K612e63=L7:0;B;F", rng);
     add("negative_count", doc(vec![line(J::Num(json::N::Neg(1)))]), BAD, rng);
